@@ -16,7 +16,6 @@ pub fn main(args: &[String]) -> i32 {
             println!("lossless: {:?}", crate::props::c01::lossless(&text, &tree));
             0
         }
-<<<<<<< HEAD
         Some("lua_ast") => {
             // vcheck --tool lua_ast <level 0..5> <count> [seed] : print generated programs and the luars verdict
             use crate::gens::lua_ast as la;
@@ -108,7 +107,9 @@ pub fn main(args: &[String]) -> i32 {
                         }
                     }
                 }
-=======
+            }
+            0
+        }
         Some("flow") => {
             // vcheck --tool flow <file.lua> [nostd]: inferred type at every __probe(id, x) + VM observations + diagnostics
             let text = std::fs::read_to_string(&args[1]).expect("read");
@@ -136,16 +137,11 @@ pub fn main(args: &[String]) -> i32 {
             let fid = ws.def_file("flow_case.lua", &text);
             for d in ws.analysis.diagnose_file(fid, tokio_util::sync::CancellationToken::new()).unwrap_or_default() {
                 println!("diag {:?} {}:{} {}", d.code, d.range.start.line, d.range.start.character, d.message);
->>>>>>> ag-flow
             }
             0
         }
         _ => {
-<<<<<<< HEAD
-            eprintln!("tools: parse | lua_ast | lsp | nest-thresholds");
-=======
-            eprintln!("tools: parse | flow");
->>>>>>> ag-flow
+            eprintln!("tools: parse | lua_ast | lsp | nest-thresholds | flow");
             2
         }
     }
